@@ -335,6 +335,26 @@ def fn_at_line(file_text, line):
     return fn, section
 
 
+def contract_marks(file_text, line):
+    """the /*Cxx..*/ property markers in the contract (signature up to the body) of the function enclosing `line`: an obligation inside a
+    function body that carries no marker of its own belongs to the properties its function's contract speaks about"""
+    lines = file_text.split('\n')
+    k = min(line, len(lines)) - 1
+    while k >= 0 and not re.search(r'\bfn\s+[A-Za-z_][A-Za-z0-9_]*', lines[k]):
+        k -= 1
+    if k < 0:
+        return []
+    out = []
+    for j in range(k, min(len(lines), k + 60)):
+        out += re.findall(r'/\*\s*(C\d\d[^*]*)\*/', lines[j])
+        t = lines[j].strip()
+        if j > k and (t.endswith('{') and not t.startswith(('ensures', 'requires', 'decreases')) and 'ensures' not in t):
+            break
+        if re.search(r'/\*@-\*/\{', lines[j]):
+            break
+    return out
+
+
 def scan_assumptions(file_text):
     """mechanical scan for everything that is assumed rather than proved in a generated unit file"""
     out = []
